@@ -14,6 +14,11 @@
             Node API) and checks balance on the real heights; agreement of the real shape with
             `t` is a guidance observable (counted as drift, never a violation).
 
+   Remove steps carry coverage tags (BalTags): "L0"/"R0" = the rebalancing met a heavy child with
+   balance factor 0 (only reachable after removals, >= 6 keys), "L0x"/"R0x" = in addition the inner
+   grandchild leans the other way (>= 9 keys; a double rotation there leaves an unbalanced node).
+   EmitEdgeTagged emits exactly the edges ending in such a Remove (cfgs _qr 9 keys, _tr 10 keys).
+
    Keys are ids 1..NK; the driver maps them to strings by a strictly increasing table whose
    first entry is the empty string (id 1 = ""), followed by adjacent keys ("a", "a\x00", ...).
 
@@ -84,22 +89,34 @@ TSet(n, k, v) ==                                                                
              n1 == [n EXCEPT !.r = r.n]
          IN IF r.upd THEN [n |-> n1, upd |-> TRUE] ELSE [n |-> Balance(Recalc(n1)), upd |-> FALSE]
 
+\* Coverage tags of a rebalancing: the heavy child of an out-of-balance node has balance factor
+\* exactly 0 ("L0"/"R0": impossible after insertions, arises only when a Remove shortens the other
+\* side; the single rotation is the only correct answer there), and additionally its inner
+\* grandchild leans the other way ("L0x"/"R0x": a double rotation would leave an unbalanced node).
+BalTags(n) ==
+  IF Bal(n) > 1 /\ Bal(n.l) = 0
+  THEN {"L0"} \cup (IF n.l.r.h > 0 /\ Bal(n.l.r) < 0 THEN {"L0x"} ELSE {})
+  ELSE IF Bal(n) < -1 /\ Bal(n.r) = 0
+  THEN {"R0"} \cup (IF n.r.l.h > 0 /\ Bal(n.r.l) > 0 THEN {"R0x"} ELSE {})
+  ELSE {}
+
 RECURSIVE TRemove(_, _)
 TRemove(n, k) ==                                                                 \* (*Node).Remove
-  IF n.h = -1 THEN [n |-> Nil, nk |-> 0, v |-> 0, rem |-> FALSE]
+  IF n.h = -1 THEN [n |-> Nil, nk |-> 0, v |-> 0, rem |-> FALSE, tags |-> {}]
   ELSE IF n.h = 0 THEN
-    IF k = n.k THEN [n |-> Nil, nk |-> 0, v |-> n.v, rem |-> TRUE]
-    ELSE [n |-> n, nk |-> 0, v |-> 0, rem |-> FALSE]
+    IF k = n.k THEN [n |-> Nil, nk |-> 0, v |-> n.v, rem |-> TRUE, tags |-> {}]
+    ELSE [n |-> n, nk |-> 0, v |-> 0, rem |-> FALSE, tags |-> {}]
   ELSE IF k < n.k
     THEN LET r == TRemove(n.l, k) IN
-         IF ~r.rem THEN [n |-> n, nk |-> 0, v |-> 0, rem |-> FALSE]
-         ELSE IF r.n.h = -1 THEN [n |-> n.r, nk |-> n.k, v |-> r.v, rem |-> TRUE]
-         ELSE [n |-> Balance(Recalc([n EXCEPT !.l = r.n])), nk |-> r.nk, v |-> r.v, rem |-> TRUE]
+         IF ~r.rem THEN [n |-> n, nk |-> 0, v |-> 0, rem |-> FALSE, tags |-> {}]
+         ELSE IF r.n.h = -1 THEN [n |-> n.r, nk |-> n.k, v |-> r.v, rem |-> TRUE, tags |-> {}]
+         ELSE LET n1 == Recalc([n EXCEPT !.l = r.n])
+              IN [n |-> Balance(n1), nk |-> r.nk, v |-> r.v, rem |-> TRUE, tags |-> r.tags \cup BalTags(n1)]
     ELSE LET r == TRemove(n.r, k) IN
-         IF ~r.rem THEN [n |-> n, nk |-> 0, v |-> 0, rem |-> FALSE]
-         ELSE IF r.n.h = -1 THEN [n |-> n.l, nk |-> 0, v |-> r.v, rem |-> TRUE]
-         ELSE LET n1 == [n EXCEPT !.r = r.n, !.k = IF r.nk # 0 THEN r.nk ELSE @]
-              IN [n |-> Balance(Recalc(n1)), nk |-> 0, v |-> r.v, rem |-> TRUE]
+         IF ~r.rem THEN [n |-> n, nk |-> 0, v |-> 0, rem |-> FALSE, tags |-> {}]
+         ELSE IF r.n.h = -1 THEN [n |-> n.l, nk |-> 0, v |-> r.v, rem |-> TRUE, tags |-> {}]
+         ELSE LET n1 == Recalc([n EXCEPT !.r = r.n, !.k = IF r.nk # 0 THEN r.nk ELSE @])
+              IN [n |-> Balance(n1), nk |-> 0, v |-> r.v, rem |-> TRUE, tags |-> r.tags \cup BalTags(n1)]
 
 RECURSIVE Leaves(_)
 Leaves(n) == IF n.h = -1 THEN <<>> ELSE IF n.h = 0 THEN << <<n.k, n.v>> >>
@@ -146,7 +163,7 @@ Remove(k) ==
          m1 == [m EXCEPT ![k] = 0]
      IN /\ m' = m1
         /\ t' = r.n
-        /\ Log([act |-> "Remove", k |-> k, reply |-> [v |-> m[k], removed |-> (m[k] # 0)], st |-> St(m1, r.n)])
+        /\ Log([act |-> "Remove", k |-> k, reply |-> [v |-> m[k], removed |-> (m[k] # 0)], tags |-> r.tags, st |-> St(m1, r.n)])
 
 Read(rec) == steps < MaxLen /\ UNCHANGED vars /\ Log(rec)
 
@@ -232,4 +249,8 @@ TypeOK == m \in [Keys -> 0..NV]
 Emit == PrintT(<<"TRACE", ToJson(hist)>>)
 EmitAtEnd == steps < MaxLen \/ Emit
 EmitEdge == PrintT(<<"EDGE", ToJson(hist')>>)
+\* emit only the edges whose last step is a Remove that rebalances over a balance-0 heavy child
+EmitEdgeTagged == LET h == hist' IN
+                  IF Len(h) > 0 /\ h[Len(h)].act = "Remove" /\ h[Len(h)].tags # {}
+                  THEN PrintT(<<"EDGE", ToJson(h)>>) ELSE TRUE
 =============================================================================
